@@ -198,7 +198,7 @@ package cache
 //@ func (c *Cache) readDump$1 [C19]
 //@   log readBlock
 //@   wraparound
-//@   requires c != nil && c.backend != nil && gr != nil && errReadHeaderEOF != nil
+//@   requires c != nil && c.backend != nil && gr != nil && errReadHeaderEOF != nil && allocated(errReadHeaderEOF)
 //@   modifies *
 //@   ensures calls(GetBuf) >= 1 && calls(GetBuf) <= 2 && calls(ReleaseBuf) == calls(GetBuf)
 //@   ensures calls(GetBuf) == 2 ==> calls(beUint64) == 1 && arg(GetBuf, 1, 0) == ret(beUint64, 0) && arg(GetBuf, 1, 0) <= 1048576
@@ -206,6 +206,7 @@ package cache
 //@   ensures ret(ReadFull, 0, 1) != nil ==> result != nil && calls(GetBuf) == 1
 //@   ensures calls(ReadFull) == 2 && ret(ReadFull, 1, 1) != nil ==> result != nil && calls(protoUnmarshal) == 0
 //@   ensures calls(protoUnmarshal) == 1 && ret(protoUnmarshal, 0) != nil ==> result != nil && calls(cacheStore) == 0
+//@   ensures result == errReadHeaderEOF ==> calls(ReadFull) == 1 && ret(ReadFull, 0, 1) != nil && calls(errorsIs) == 1 && arg(errorsIs, 0, 0) == ret(ReadFull, 0, 1) && arg(errorsIs, 0, 1) == io.EOF && ret(errorsIs, 0)
 //@   loop 0:
 //@     invariant c != nil && 0 <= it0
 //@     each iter_calls(msgUnpack) == 1 && iter_calls(cacheStore) == 1 && iter_ret(msgUnpack, 0) == nil && iter_arg(cacheStore, 0, 0) == c.backend
@@ -227,6 +228,7 @@ package cache
 //@   ensures ret(protoMarshal, 0, 1) != nil ==> result != nil && calls(gzWrite) == 0
 //@   ensures ret(protoMarshal, 0, 1) == nil ==> calls(gzWrite) >= 1 && len(arg(gzWrite, 0, 1)) == 8
 //@   ensures calls(gzWrite) == 2 ==> arg(gzWrite, 1, 1) == ret(protoMarshal, 0, 0)
+//@   ensures calls(gzWrite) >= 1 ==> atcall(gzWrite, 0, be64(arg(gzWrite, 0, 1)) == len(ret(protoMarshal, 0, 0)))
 //@   ensures calls(gzWrite) >= 1 && ret(gzWrite, 0, 1) != nil ==> result != nil && calls(gzWrite) == 1
 //@   ensures calls(gzWrite) == 2 && ret(gzWrite, 1, 1) != nil ==> result != nil
 //@   ensures result == nil ==> calls(gzWrite) == 2 && calls(blockReset) == 1 && ret(protoMarshal, 0, 1) == nil
@@ -236,7 +238,7 @@ package cache
 //@ func (c *Cache) readDump [C19]
 //@   requires c != nil && c.backend != nil
 //@   modifies *
-//@   ensures calls(readBlock) >= 1 ==> (result_1 == nil ==> lastret(readBlock) != nil)
+//@   ensures result_1 == nil ==> calls(readBlock) >= 1 && lastret(readBlock) == errReadHeaderEOF
 //@   loop 0:
 //@     invariant c != nil
 //@     each iter_calls(readBlock) == 1 && iter_ret(readBlock, 0) == nil
